@@ -212,7 +212,7 @@ func parseCfg(s string) (simCfg, error) {
 // ---------- fake redis node ----------
 
 func bulkOf(b []byte) []byte {
-	return append(append(append([]byte("$"+strconv.Itoa(len(b))+"\r\n"), b...), '\r', '\n'))
+	return append(append([]byte("$"+strconv.Itoa(len(b))+"\r\n"), b...), '\r', '\n')
 }
 
 func valOf(k []byte) []byte {
